@@ -110,6 +110,7 @@ func (c *Cond) Wait() {
 	// Atomically: join the wait set and release the lock.
 	t := point(&op{kind: "cond-wait", what: "Cond.Wait(release)", enabled: always})
 	t.waitSig = false
+	t.condWaits++
 	c.waiters = append(c.waiters, t)
 	unlockNoPoint(c.L)
 	// Park until signalled.
